@@ -115,11 +115,18 @@ func notePanic(what string, r interface{}) {
 		for k, v := range panicLog {
 			fmt.Fprintf(&b, "%6d %s\n", v, k)
 		}
-		os.WriteFile(p, []byte(b.String()), 0o644)
+		// (written whole and renamed: the process may exit while a timed-out request is still noting a panic)
+		if os.WriteFile(p+".tmp", []byte(b.String()), 0o644) == nil {
+			os.Rename(p+".tmp", p)
+		}
 	}
 }
 
 func guarded(what string, f func() string) (res string) {
+	return guardedFor(5*time.Second, what, f)
+}
+
+func guardedFor(limit time.Duration, what string, f func() string) (res string) {
 	done := make(chan string, 1)
 	go func() {
 		defer func() {
@@ -137,7 +144,7 @@ func guarded(what string, f func() string) (res string) {
 	select {
 	case s := <-done:
 		return s
-	case <-time.After(5 * time.Second):
+	case <-time.After(limit):
 		return "timeout"
 	}
 }
@@ -433,9 +440,7 @@ func genC02(c *h.Ctx) {
 	}
 	genRecur(c)
 	genGoAPI2(c)
-	if os.Getenv("VERIF_C02_BRIDGE") != "" { // TEMPORARY gate: on by default once the fix-C02b stack is on /repo main
-		genBridge(c)
-	}
+	genBridge(c)
 	// stateful API sequences
 	for i := 0; i < c.N(4000, 150000); i++ {
 		c.Add("seq "+hex.EncodeToString([]byte(genSeq(r.Fork(), fns, 4+r.Intn(10)))), "sequence")
@@ -453,8 +458,13 @@ func genC02(c *h.Ctx) {
 			c.Add(k+" "+hex.EncodeToString([]byte(odd)), "source:"+k)
 		}
 	}
+	for _, p := range auditProbes {
+		c.Add("src "+hex.EncodeToString([]byte(p)), "source:audit-probe")
+		c.Add("eval "+hex.EncodeToString([]byte(p)), "source:audit-probe")
+	}
 	var corpus []string
 	corpus = append(corpus, srcSeeds...)
+	corpus = append(corpus, auditProbes...)
 	for i := 0; i < 40; i++ {
 		vars, prog, _ := mujs.GenProgram(r.Fork(), 30)
 		corpus = append(corpus, mujs.RenderJS(vars, prog))
